@@ -65,6 +65,7 @@ fn main() {
                 .stack_size(2 << 30)
                 .spawn(move || {
                     let mut ctx = Ctx::new(&prop, tier, seed, shard, nshards.max(1));
+                    ctx.note("hooks_enabled", serde_json::json!(cv::api::HOOKS_ENABLED));
                     for k in load_open_findings(&known) {
                         ctx.open_findings.insert(k);
                     }
